@@ -300,7 +300,7 @@ def shard_main(pid, tier, seed, shard, nshards, out, only):
             if shard >= n_sh:
                 continue
             if chk.strategy is not None:
-                n = chk.examples.get(tier, 100)
+                n = int(chk.examples.get(tier, 100) * float(os.environ.get("VERIF_SCALE", "1")))
                 per = max(1, n // n_sh)
                 v = run_generated(mod, pid, chk, per, seed * 1000 + shard, findings, col, 40 if tier == "quick" else 120)
             else:
@@ -331,7 +331,6 @@ def main(argv=None):
     ap.add_argument("--shard")
     ap.add_argument("--out")
     ap.add_argument("--only", default="")
-    ap.add_argument("--scale", type=float, default=float(os.environ.get("VERIF_SCALE", "1")))
     a = ap.parse_args(argv)
     seed = int(os.environ.get("VERIF_SEED", "1") or "1")
     pid = a.pid
